@@ -31,6 +31,7 @@ type Engine struct {
 	siteN    map[string]int
 	repo     string
 	quantSliceEq bool
+	goArgs   [][2]interface{}
 	verif    string
 }
 
@@ -106,6 +107,47 @@ func loadEngine(repo, verif string) (*Engine, error) {
 	return e, nil
 }
 
+// spawnArgKeys returns the ghost components holding the arguments of go statements anywhere in the
+// repository packages (so that a havoc of the spawn log covers all of them), registering their sorts.
+func (e *Engine) spawnArgKeys(vc *VC) []string {
+	if e.goArgs == nil {
+		e.goArgs = [][2]interface{}{}
+		for fn := range ssautil.AllFunctions(e.prog) {
+			if fn.Pkg == nil || !strings.HasPrefix(fn.Pkg.Pkg.Path(), "github.com/enbility/spine-go") {
+				continue
+			}
+			for _, b := range fn.Blocks {
+				for _, ins := range b.Instrs {
+					if g, ok := ins.(*ssa.Go); ok {
+						i := 0
+						if g.Call.IsInvoke() {
+							e.goArgs = append(e.goArgs, [2]interface{}{i, g.Call.Value.Type()})
+							i++
+						}
+						for _, a := range g.Call.Args {
+							e.goArgs = append(e.goArgs, [2]interface{}{i, a.Type()})
+							i++
+						}
+					}
+				}
+			}
+		}
+	}
+	seen := map[string]bool{}
+	var out []string
+	for _, ga := range e.goArgs {
+		srt := vc.sortOf(ga[1].(types.Type))
+		key := fmt.Sprintf("G:spawnarg%d:%s", ga[0].(int), srt)
+		if !seen[key] {
+			seen[key] = true
+			vc.compSort[key] = "(Array Int " + srt + ")"
+			out = append(out, key)
+		}
+	}
+	sort.Strings(out)
+	return out
+}
+
 func (e *Engine) pkgTypes(name string) *types.Package {
 	if p, ok := e.spkgs[name]; ok && p != nil {
 		return p.Pkg
@@ -115,7 +157,7 @@ func (e *Engine) pkgTypes(name string) *types.Package {
 
 // typeTag returns the dynamic-type tag of a concrete type (stable within a run, ordered by first use; never 0).
 func (e *Engine) typeTag(t types.Type) int {
-	k := types.TypeString(t, nil)
+	k := canonType(t)
 	if n, ok := e.tags[k]; ok {
 		return n
 	}
